@@ -34,6 +34,7 @@ structure SAssoc where
   nonce : Bytes
   piv : Bytes
   isObserve : Bool
+  isClient : Bool            -- association->is_client (fix 48ee5dc): set up / taken over by a request SENT from this end
   deriving Repr, DecidableEq
 
 /-- the server session as far as OSCORE goes -/
@@ -51,45 +52,96 @@ def srvDecrypt (s : Srv) (t : Bytes) (pos : RPos) (aad nonce piv : Bytes) (verif
   if !verified then ⟨some pos, s.as⟩ else
   let as1 :=
     match findSAssoc s.as t with
-    | some _ => s.as.map fun a => if a.token = t then { a with nonce := nonce, piv := piv, aad := aad, rcp := pos } else a
-    | none => ⟨t, pos, aad, nonce, piv, false⟩ :: s.as
+    | some _ => s.as.map fun a => if a.token = t then { a with nonce := nonce, piv := piv, aad := aad, rcp := pos, isClient := false } else a
+    | none => ⟨t, pos, aad, nonce, piv, false, false⟩ :: s.as
   let as2 := if observe then as1.map fun a => if a.token = t then { a with isObserve := true } else a else as1
   ⟨some pos, as2⟩
 
 /-- RFC 8613 8.3 step 1 in `coap_oscore_new_pdu_encrypted_lkd`: the recipient context (hence the Sender Context) a response
 with token `t` is protected with — `association->recipient_ctx`; `none`: no association, the function fails -/
-def srvResponseCtx (s : Srv) (t : Bytes) : Option RPos := (findSAssoc s.as t).map (·.rcp)
+def srvResponseCtx (s : Srv) (t : Bytes) : Option RPos :=
+  match findSAssoc s.as t with
+  | none => none                                        -- association == NULL
+  | some a => if a.isClient then none else some a.rcp   -- || association->is_client: goto error (fix 48ee5dc)
+
+/-- the association a response with token `t` is protected under (`association->nonce` when the response carries no
+Partial IV of its own, `association->aad` / `partial_iv` always); `none`: the function fails -/
+def srvResponseAssoc (s : Srv) (t : Bytes) : Option SAssoc :=
+  match findSAssoc s.as t with
+  | none => none
+  | some a => if a.isClient then none else some a
 
 /-- does `coap_oscore_new_pdu_encrypted_lkd` take the Partial IV / fresh nonce / `oscore_increment_sender_seq` branch for
 a response with token `t`?  `doingObserve`: the response carries Observe; `ask`: `send_partial_iv == OSCORE_SEND_PARTIAL_IV`
 on entry.  `none`: no association, the function fails.  (fix 155f0b4: `association->is_observe` forces it) -/
 def srvOwnPiv (s : Srv) (t : Bytes) (doingObserve ask : Bool) : Option Bool :=
-  (findSAssoc s.as t).map fun a =>
+  (srvResponseAssoc s t).map fun a =>
     let ask' := if a.isObserve && !doingObserve && !ask then true else ask
     doingObserve || ask'
 
 /-- the association part of protecting a response with token `t` (the response could be built) -/
 def srvProtect (s : Srv) (t : Bytes) : Srv :=
   match findSAssoc s.as t with
-  | some a => if a.isObserve then s else { s with as := s.as.filter fun a => a.token ≠ t }
+  | some a => if a.isClient then s else                -- `goto error` before anything is touched (fix 48ee5dc)
+              if a.isObserve then s else { s with as := s.as.filter fun a => a.token ≠ t }
   | none => s
+
+/-- the tail of `coap_oscore_new_pdu_encrypted_lkd` for a REQUEST SENT from this end on the same session (`coap_request`;
+the request could be protected — `pos` = `rcp_ctx = session->recipient_ctx`, not NULL): "Set up an association for handling a
+response".  `oscore_find_association(session, &pdu_token)` looks in the SAME table the received requests use; found: "The
+association now belongs to this request": `is_client = 1`, `is_observe = doing_observe && observe_value != 1`, `nonce`,
+`aad`, `partial_iv` replaced by `cose`'s (this end's own Partial IV and the nonce made from it), `recipient_ctx = rcp_ctx`;
+not found: `oscore_new_association(…, rcp_ctx, aad, nonce, partial_iv, doing_observe)` (at the head), then `is_client = 1`. -/
+def srvRequest (s : Srv) (t : Bytes) (pos : RPos) (aad nonce piv : Bytes) (doingObserve : Bool) (observeValue : Nat) : Srv :=
+  match findSAssoc s.as t with
+  | some _ =>
+    { s with as := s.as.map fun a => if a.token = t then
+        { a with isClient := true, isObserve := doingObserve && observeValue != 1, nonce := nonce, aad := aad, piv := piv,
+                 rcp := pos } else a }
+  | none => { s with as := ⟨t, pos, aad, nonce, piv, doingObserve, true⟩ :: s.as }
+
+/-- the response path of `coap_oscore_decrypt_pdu` as far as the table goes: a response with token `t` whose OSCORE option
+decodes arrives; `verified` = the AEAD accepted (under the association's nonce / AAD, whoever set them) and the plaintext
+parsed.  `is_client` is not looked at here. -/
+def srvRespIn (s : Srv) (t : Bytes) (verified : Bool) : Srv :=
+  match findSAssoc s.as t with
+  | none => s
+  | some a => if verified && !a.isObserve then { s with as := s.as.filter fun a => a.token ≠ t } else s
 
 inductive SrvStep where
   | decrypt (t : Bytes) (pos : RPos) (aad nonce piv : Bytes) (verified observe : Bool)
   | protect (t : Bytes)
+  | request (t : Bytes) (pos : RPos) (aad nonce piv : Bytes) (doingObserve : Bool) (observeValue : Nat)   -- a request SENT from this end
+  | respIn (t : Bytes) (verified : Bool)                                                      -- a response arrives
   deriving Repr, DecidableEq
 
 def srvStep (s : Srv) : SrvStep → Srv
   | .decrypt t pos aad nonce piv v o => srvDecrypt s t pos aad nonce piv v o
   | .protect t => srvProtect s t
+  | .request t pos aad nonce piv o v => srvRequest s t pos aad nonce piv o v
+  | .respIn t v => srvRespIn s t v
 
 def srvRun (s : Srv) (steps : List SrvStep) : Srv := steps.foldl srvStep s
 
-/-- the recipient context of the latest VERIFIED `decrypt` step per token — a function of the `decrypt` steps alone -/
+/-- the recipient context of the latest VERIFIED `decrypt` step per token, forgotten when a request SENT from this end takes the
+token over (fix 48ee5dc) — a function of the `decrypt` and `request` steps alone -/
 def srvTrack (acc : Bytes → Option RPos) : SrvStep → Bytes → Option RPos
   | .decrypt t pos _ _ _ v _ => if v then fun t' => if t' = t then some pos else acc t' else acc
   | .protect _ => acc
+  | .request t _ _ _ _ _ _ => fun t' => if t' = t then none else acc t'
+  | .respIn _ _ => acc
 
 def srvLatest (steps : List SrvStep) : Bytes → Option RPos := steps.foldl srvTrack (fun _ => none)
+
+/-- (recipient context, aad, nonce, partial_iv) of the RECEIVED request a response with the token would answer: those of the
+latest VERIFIED `decrypt` step with the token, `none` again once a request SENT from this end has used the token since -/
+def srvTrackReq (acc : Bytes → Option (RPos × Bytes × Bytes × Bytes)) : SrvStep → Bytes → Option (RPos × Bytes × Bytes × Bytes)
+  | .decrypt t pos aad nonce piv v _ => if v then fun t' => if t' = t then some (pos, aad, nonce, piv) else acc t' else acc
+  | .protect _ => acc
+  | .request t _ _ _ _ _ _ => fun t' => if t' = t then none else acc t'
+  | .respIn _ _ => acc
+
+def srvLatestReq (steps : List SrvStep) : Bytes → Option (RPos × Bytes × Bytes × Bytes) :=
+  steps.foldl srvTrackReq (fun _ => none)
 
 end Coap.M.Oscore
